@@ -326,10 +326,28 @@ func (h *ResponseHeader) addVaryBytes(value []byte) {
 	if len(v) == 0 {
 		// 'Vary' is not set
 		h.SetBytesV(HeaderVary, value)
-	} else if !bytes.Contains(v, value) {
+	} else if !varyHasMember(v, value) {
 		// 'Vary' is set and not contains target value
 		h.SetBytesV(HeaderVary, append(append(v, ','), value...))
 	} // else: 'Vary' is set and contains target value
+}
+
+// varyHasMember reports whether the comma-separated Vary value v lists name
+// (case-insensitively) or "*".
+func varyHasMember(v, name []byte) bool {
+	for len(v) > 0 {
+		var m []byte
+		if n := bytes.IndexByte(v, ','); n >= 0 {
+			m, v = v[:n], v[n+1:]
+		} else {
+			m, v = v, nil
+		}
+		m = bytes.TrimSpace(m)
+		if bytes.EqualFold(m, name) || (len(m) == 1 && m[0] == '*') {
+			return true
+		}
+	}
+	return false
 }
 
 // Server returns Server header value.
